@@ -27,7 +27,9 @@ RULE = ("two tables read from generated BED/BED6/VCF/SAM/FASTQ/two-line FASTA/BA
         "14-operation alphabet on a 2-row and a 1-row BED6 table; 'filter every file of a set and concatenate': THREE files of unequal "
         "size in three registers, each replaced by a selection of itself with every pattern of selections WITHOUT rows (all-False mask, "
         "empty slice, empty int list) among selections with rows, then one n-ary np.concatenate of 3-4 operands in any order, fields "
-        "read before and after. Non-trivial = the program touches >= 2 of "
+        "read before and after; round 8: index KINDS (Python range counting down to row 0 / from-the-end / past the end, pandas "
+        "Series, int16 / uint8 / uint64 arrays) in random and fixed programs, and the protocol operation `t == u` between two files of "
+        "EQUAL VALUES and DIFFERENT TEXT (file 1 = file 0 respelled canonically), whole / sliced / reversed / after assignments. Non-trivial = the program touches >= 2 of "
         "{field access, index, concatenate, replace/setattr} before an observation")
 EXHAUSTIVE = {"quick": False, "thorough": False}   # the small-scope family is exhaustive, the rest is sampled
 MODEL_OPS = {"run"}
@@ -43,6 +45,9 @@ ASSUMPTIONS = [
     "the strand column (one encoded character per row) has a different array shape in the two modes, so no single replacement "
     "array is valid in both: it is observed but never replaced",
     "an operation that raises leaves the table unchanged; only the fact of failing is compared, not the exception class",
+    "index KINDS (Python range, pandas Series, integer arrays of other widths) select what the list of their members selects; a run in "
+    "which npstructures' ragged arrays refuse a range / Series with NotImplementedError (text columns of eager tables, cached text "
+    "columns of lazy ones) is outside the comparison; `t == u` (the data class's column-wise comparison) is compared lazy vs eager",
     "an n-ary np.concatenate([a, b, m1, ...]) is run by the Lean machines as the binary steps a := [a, b]; a := [a, m1]; ... (only the "
     "last one is an observation of the case); the n-ary rule of the code is concatNew / concatNew_spec, associativity concat_assoc_view",
     "FASTQ / two-line FASTA / BAM buffers have no `concatenate`: their lazy tables become eager on np.concatenate; the eager result "
@@ -258,8 +263,9 @@ def make_case(rng, fmt, nops, canonical=None, parts=False, ntab=2):
             f = rng.choice(REPLACEABLE[fmt])
             ops.append({"k": "setattr", "a": a, "f": f, "c": _rand_kw_vals(rng, fmt, f, n)})
         elif r < 0.94:
-            # conversions to rows / columns / text: tolist, iteration, todict, str()
-            ops.append({"k": rng.choice(["tolist", "tolist", "iter", "todict", "str"]), "a": a})
+            # conversions to rows / columns / text: tolist, iteration, todict, str(); the protocol operation t == u
+            kk = rng.choice(["tolist", "tolist", "iter", "todict", "str", "eq"])
+            ops.append({"k": kk, "a": a, "b": rng.choice([0, 1])} if kk == "eq" else {"k": kk, "a": a})
         else:
             ops.append({"k": "write", "a": a})
     ops += [{"k": "tolist", "a": 0}, {"k": "write", "a": 0}, {"k": "tolist", "a": 1}]
@@ -271,6 +277,32 @@ def make_case(rng, fmt, nops, canonical=None, parts=False, ntab=2):
         # each mode asked for through another combination of the documented switches (config.LAZY x lazy= keyword x default)
         c["sw"] = {"lazy": rng.choice(G.SWITCHES_LAZY), "eager": rng.choice(G.SWITCHES_EAGER)}
     return c
+
+
+def _twin(c):
+    """the case with file 1 := file 0 respelled: every integer column in its canonical spelling, the FASTQ separator line a bare '+';
+    the two files hold EQUAL VALUES in every column, their TEXT differs wherever file 0 is not canonical"""
+    fmt = c["fmt"]
+    rows = []
+    for r in c["tables"][0]:
+        if fmt == "bam":
+            rows.append(dict(r))
+            continue
+        cells = [[v if k in ("int", "pos") else t, v] for (t, v), k in zip(r["cells"], KINDS[fmt])]
+        if fmt == "fastq":
+            lines = r["raw"].split("\n")
+            lines[2] = "+"
+            raw = "\n".join(lines)
+        elif fmt == "fasta2":
+            raw = r["raw"]
+        else:
+            cols = r["raw"][:-1].split("\t")
+            for i, ((t, v), k) in enumerate(zip(r["cells"], KINDS[fmt])):
+                if k in ("int", "pos") and i < len(cols) and cols[i] == t:
+                    cols[i] = v
+            raw = "\t".join(cols) + "\n"
+        rows.append({"raw": raw, "cells": cells})
+    return dict(c, tables=[c["tables"][0], rows] + c["tables"][2:])
 
 
 def cases(tier, rng):
@@ -325,6 +357,29 @@ def cases(tier, rng):
                     cat = {"k": "cat", "a": order[0], "b": order[1], "more": [order[2]] + ([order[1]] if rng.random() < 0.3 else [])}
                     tail = [{"k": "get", "a": order[0], "f": rng.randrange(nF)}, {"k": "tolist", "a": order[0]}, {"k": "write", "a": order[0]}]
                     yield dict(base, ops=ops + [cat] + tail + base["ops"], chunk=0)
+    # index KINDS (range counting down to row 0 / from-the-end bounds / past the end, pandas Series, unsigned arrays) and `t == u`
+    # between two tables of EQUAL VALUES and DIFFERENT TEXT (file 1 = file 0 respelled canonically: no leading zeros / '+', bare FASTQ '+')
+    for fmt in fmts:
+        for rnd in range(3 if big else 1):
+            base = _twin(make_case(rng, fmt, 0, False))
+            n0 = len(base["tables"][0])
+            nF = len(KINDS[fmt])
+            IX = lambda a, d, ix: {"k": "index", "a": a, "d": d, "ix": ix}
+            EQ = lambda a, b: {"k": "eq", "a": a, "b": b}
+            scen = [[EQ(0, 1)], [EQ(1, 0)], [EQ(0, 0)], [{"k": "get", "a": 0, "f": 1 % nF}, EQ(0, 1)],
+                    [IX(0, 0, {"slice": [1, None, 1]}), IX(1, 1, {"slice": [1, None, 1]}), EQ(0, 1)],
+                    [IX(0, 0, {"slice": [None, None, -1]}), EQ(0, 1), EQ(1, 0)],
+                    [IX(0, 0, {"range": [n0 - 1, -1, -1]}), IX(1, 1, {"slice": [None, None, -1]}), EQ(0, 1)],
+                    [IX(0, 0, {"range": [n0 - 1, -1, -1]})], [IX(0, 1, {"range": [-min(n0, 2), 0, 1]})], [IX(0, 0, {"range": [0, n0 + 2, 1]})],
+                    [IX(0, 0, {"range": [-1, -n0 - 1, -2]}), {"k": "get", "a": 0, "f": 0}],
+                    [IX(0, 0, {"ints": [n0 - 1, 0], "as": "series"})], [IX(0, 0, {"ints": [n0 - 1, 0], "as": "u64"})],
+                    [IX(0, 1, {"mask": [i % 2 == 0 for i in range(n0)], "as": "series"})]]
+            if REPLACEABLE[fmt]:
+                f = REPLACEABLE[fmt][0]
+                vals = _rand_kw_vals(rng, fmt, f, n0)
+                scen += [[{"k": "setattr", "a": 0, "f": f, "c": vals}, EQ(0, 1), {"k": "setattr", "a": 1, "f": f, "c": vals}, EQ(0, 1)]]
+            for sc in scen:
+                yield dict(base, ops=sc + base["ops"], chunk=0)
     for fmt in fmts:
         m = per if fmt in MODEL_FMTS else per // 2
         for _ in range(m):
@@ -458,8 +513,8 @@ def oracle(c):
             out.append("unit")
         elif k in ("tolist", "iter", "todict"):
             out.append({"rows": [_blank(fmt, r) for r in t]})
-        elif k == "str":
-            out.append({"num": len(t)})     # the text itself is only compared lazy vs eager (see agree / agree_model)
+        elif k in ("str", "eq"):
+            out.append({"num": len(t)})     # the text / the answer itself is only compared lazy vs eager (see agree / agree_model)
         elif k == "write":
             # (BAM has no eager writer; the records of an unmodified BAM table are its source bytes — known finding when eager fails)
             out.append("err" if fmt == "bam" else {"bytes": _header(c) + "".join(_dump_row(fmt, r) for r in t)})
@@ -486,10 +541,12 @@ def _model_ops(c):
     table unchanged (modelled by the state-neutral `len`; its text is compared lazy vs eager on the implementation only); an n-ary
     np.concatenate([a, b, m1, ...]) (every m_i another register than a) is run by the machines as the binary steps
     a := [a, b]; a := [a, m1]; ... of which only the last is an observation of the case (the n-ary rule itself is `concatNew_spec`)"""
-    remap = {"iter": "tolist", "todict": "tolist", "str": "len"}
+    remap = {"iter": "tolist", "todict": "tolist", "str": "len", "eq": "len"}   # `t == u` is state-neutral: compared lazy vs eager only
     ops, keep = [], []
     for o in c["ops"]:
         o = dict(o, k=remap.get(o["k"], o["k"]))
+        if "ix" in o:
+            o["ix"] = G._model_ix(o["ix"])      # a range is the list of its members; the spelling of the index is dropped
         more = o.pop("more", None) or []
         assert all(m != o["a"] for m in more)
         ops.append(o)
@@ -644,6 +701,8 @@ def _run_mode(c, lazy, paths, d):
                 obs = {"rows": [list(r) for r in zip(*cols)] if len(t) else []}
             elif k == "str":
                 obs = {"str": str(t)}
+            elif k == "eq":
+                obs = {"eq": bool(np.all(t == regs[o["b"]]))}       # the data class's own column-wise comparison
             elif k == "write":
                 out = os.path.join(d, f"out{int(lazy)}{G.FORMATS[fmt][0]}")
                 with bnp.open(out, "w", buffer_type=bt) as w:
@@ -727,9 +786,21 @@ def _lazy_write_diff(c, got, exp):
     return None
 
 
+def _refused(c, got):
+    """an index of an unusual KIND (Python range, pandas Series) was refused with NotImplementedError by npstructures' ragged arrays
+    (text columns of eager tables / cached text columns of lazy ones) in one of the modes: such a run is outside the comparison"""
+    for i, o in enumerate(c["ops"]):
+        if o["k"] == "index" and ("range" in o["ix"] or o["ix"].get("as") == "series"):
+            if "NotImplementedError" in (got.get("errs", {}).get("lazy", {}).get(str(i)), got.get("errs", {}).get("eager", {}).get(str(i))):
+                return True
+    return False
+
+
 def agree(c, got, exp):
     if not isinstance(got, dict) or "lazy" not in got:
         return False
+    if _refused(c, got):
+        return True
     return _first_diff(c, got) is None and _lazy_write_diff(c, got, exp) is None
 
 
@@ -738,6 +809,8 @@ def agree_model(c, got, m):
     recorded finding outside the modelled code (t[i] TypeError from npstructures; eager header context)"""
     if not isinstance(got, dict) or "lazy" not in got:
         return False
+    if _refused(c, got):
+        return True
     if m.get("dom") is not True:     # the run must lie in the domain of the Lean program theorems (runOKb_sound -> RunOK)
         return False
     hdr = _header(c)
@@ -746,7 +819,7 @@ def agree_model(c, got, m):
         if len(got[mode]) != len(mm):
             return False
         for o, a, b in zip(c["ops"], got[mode], mm):
-            if a == b or o["k"] == "str":
+            if a == b or o["k"] in ("str", "eq"):
                 continue
             if o["k"] in ("row", "iter") and a == "err":
                 continue
